@@ -379,6 +379,9 @@ def worker(args):
                           {"name": "adm", "password": sut.password_hash(binary, "admpw"), "mask": "*!*@10.*"}],
                max_joins=rng.choice([None, 2, 5]), log_level="INFO",
                channels=[{"name": "#pre", "modes": {"moderated": True, "operators": ["vic0"]}}])
+    if rng.random() < 0.5:
+        # the victim's user name is a predefined user: it is +r and may drop / take back that mode
+        cfg["users"] = [{"name": "vic", "nick": "vic-nick"}]
     srv = None
     try:
         srv = sut.Server(binary, cfg, hooks=hooks).start()
